@@ -236,6 +236,10 @@ class Ctx:
         try:
             p = subprocess.run(cmd, capture_output=True, text=True, timeout=timeout, env=env)
         except subprocess.TimeoutExpired:
+            if self.failures:
+                # an earlier stage already holds failures of the real code (typically a hang): decide on those
+                log("%s: recorder timeout; stopping with the failures recorded so far" % name)
+                raise Crashed()
             raise Broken("recorder timeout %s" % name)
         self._race_report(name, family, cmd, p, race)
         if go_fatal(p) or p.returncode == 5:
